@@ -80,6 +80,11 @@ def run(ctx):
             raw = rng.randbytes(n)
             hmac_keys.append((alg, n, raw))
             exported.append((alg, f"oct-{n}-octets", OctKey.import_key(raw)))
+    # RSA keys whose modulus length is not a multiple of 8 (imported keys only): signature length is ceil(bits / 8)
+    odd_rsa = KC.special_rsa_keys()
+    for bits, rk in odd_rsa:
+        for alg in ("RS256", "PS256") + (("RS512", "PS384") if ctx.tier != "quick" else ()):
+            exported.append((alg, f"rsa-{bits}-bits", rk))
     for alg, label, sk in exported:
         public_jwk = sk.as_dict(private=False) if sk.key_type != "oct" else sk.as_dict()
         for kind in (S.KINDS if ctx.tier != "quick" else ("compact", "flat")):
@@ -121,6 +126,14 @@ def run(ctx):
             c.key = OctKey.import_key(raw)
             c.note = "ref-signed-hmac-keylen"
             cases.append(c)
+
+    for bits, rk in odd_rsa:
+        for alg in ("RS256", "RS384", "PS256"):
+            for kind in ("compact", "flat", "general"):
+                c = J.build_valid(rng, alg, "rsa2048", rk.raw_value, kind, b"rsa modulus of %d bits" % bits, rng.choice((0, 1, 2)))
+                c.key = RSAKey.import_key(rk.as_dict(private=False))
+                c.note = "ref-signed-rsa-odd-modulus"
+                cases.append(c)
 
     def expect(case, impl):
         if impl[0] != "ok":
